@@ -29,6 +29,9 @@ EXPLANATION = (
     'IndexError. C10.6: the output is opened only after validation and header regeneration. C10.7 alignment: lower '
     'bounds are rounded down and upper bounds up to the blockshape component of the range\'s own axis, then clipped '
     'to [0, axis length].')
+EXPLANATION += (
+    ' ADDED: C10.1 includes the size formulas of the cropper (data blocks, array bytes). C10.2: each origin field receives <axis of the field>[<range of the same axis>[0]]; the interval field is not decoded ungated. C10.3 includes the order / one-key-per-array / full-grid-array clauses of C03.5 and sums companion writes. C10.7 decides the clip semantically: on every path the aligned upper bound is the axis length, or the block ceiling under an ordering fact that bounds it by the axis length (min(), or an equality test of a conditional expression).'
+)
 ASSUMPTIONS = ['request bounds are integers', 'names denote what they say']
 NOT_DECIDED = 'Bitwise equality of decoded volumes; header values; cropping of irregular or 2D sources.'
 
